@@ -54,6 +54,9 @@ fn per_slot_wide(i: u8, k: u8, v: &mut Vec<Op>) {
     v.push(ExtendChars(i));
     v.push(ExtendStrs(i));
     v.push(ExtendFiltered(i));
+    for h in 0..LYING_HINTS.len() as u8 {
+        v.push(ExtendLying(i, h));
+    }
     for j in 0..k {
         v.push(ExtendLean(i, j));
     }
